@@ -1,6 +1,7 @@
 package c19
 
 import (
+	"encoding/json"
 	"flag"
 	"fmt"
 	"os"
@@ -19,6 +20,8 @@ import (
 
 // TestSurvey is a development aid (not part of the check): C19_SURVEY=<sub>:<n> runs n generated cases of one
 // sub-property without stopping at failures and prints a histogram of the failure messages.
+var subName = map[string]string{"value": "load-form-value", "code": "load-form-code", "defs": "load-form-defs", "snap": "snapshot"}
+
 func TestSurvey(t *testing.T) {
 	spec := os.Getenv("C19_SURVEY")
 	if spec == "" {
@@ -47,6 +50,8 @@ func TestSurvey(t *testing.T) {
 		hist[k]++
 		if _, has := example[k]; !has {
 			example[k] = fmt.Sprintf("%s\n   case: %+v", r.Err, c)
+			b, _ := json.MarshalIndent(map[string]any{"property": "C19", "sub": subName[name], "case": c, "msg": r.Err}, "", " ")
+			_ = os.WriteFile(fmt.Sprintf("/var/tmp/slipwork/c19ex-%s-%d.json", name, len(example)), b, 0o644)
 		}
 	}
 	safe := func(f func() *h.Result) (r *h.Result) {
@@ -99,6 +104,31 @@ func TestEvalDebug(t *testing.T) {
 	scope := slip.NewScope()
 	for _, line := range strings.Split(src, "\n") {
 		if strings.TrimSpace(line) == "" {
+			continue
+		}
+		if name, ok := strings.CutPrefix(line, "#vars "); ok {
+			for _, p := range slip.AllPackages() {
+				p.EachVarVal(func(n string, vv *slip.VarVal) {
+					if strings.Contains(n, name) {
+						fmt.Printf("  in %s: key %q name %q pkg %s export %v const %v\n", p.Name, n, vv.String(), vv.Pkg.Name, vv.Export, vv.Const)
+					}
+				})
+			}
+			continue
+		}
+		if line == "#funcs" {
+			for _, p := range slip.AllPackages() {
+				if p.Locked {
+					continue
+				}
+				p.EachFuncInfo(func(fi *slip.FuncInfo) {
+					pn := "<nil>"
+					if fi.Pkg != nil {
+						pn = fi.Pkg.Name
+					}
+					fmt.Printf("  in %s: %s pkg %s kind %s doc-nil %v aux %T\n", p.Name, fi.Name, pn, fi.Kind, fi.Doc == nil, fi.Aux)
+				})
+			}
 			continue
 		}
 		o := ev.Eval(scope, line)
